@@ -74,6 +74,11 @@ impl<'l> EdnsParser<'l> {
     }
 }
 
+/* A name is at most 255 octets on the wire (RFC1035 Section 3.1): 127 labels of one octet each,
+ * their length octets and the root.
+ */
+const MAX_LABELS: usize = 127;
+
 pub struct PktParser<'l> {
     buffer: &'l [u8],
     offset: usize,
@@ -139,9 +144,16 @@ impl<'l> PktParser<'l> {
                 p if p & 0b1100_0000 == 0 => {
                     // Uncompressed label
                     domainv.push(dnspkt::Label::from(self.get_bytes(prefix as usize)?));
+                    if domainv.len() > MAX_LABELS {
+                        return Err("Too many labels in domain".into());
+                    }
                 }
                 offset_high if offset_high & 0b1100_0000 == 0b1100_0000 => {
-                    if depth > 10 {
+                    /* Our own serialiser points at the longest suffix it has already written,
+                     * which for names that each extend the previous one by a label (zone cuts
+                     * from the root down) is one pointer per label.
+                     */
+                    if depth > MAX_LABELS as i32 {
                         return Err("Compression Corruption".into());
                     }
                     // Compressed label.
